@@ -7,6 +7,7 @@ package newick
 //   func nameToText / nameFromText (+ tokenizer)      -> C05/name-codec      {s}
 //   func (*Node).MarshalText, (*Node).Write, Reader   -> C05/tree-roundtrip  {tree}
 //   several Write calls + Reader                      -> C05/multi-tree      {trees, sep, trailing?}
+//   MarshalText x n, then Write x n, Reader           -> C05/marshal-list    {trees}
 //   func Reader (read schedule)                       -> C06/chunking        {data, chunks, eof_with_data}
 //   func Reader (LF vs CRLF)                          -> C06/crlf            {trees, wrap?}
 //   func File                                         -> C06/file            {data, gz, missing}
@@ -16,6 +17,8 @@ package newick
 //   func Reader / File (early stop)                   -> C18/stop            {data, stop, api}
 //   func (*Node).PreOrder / PostOrder (early stop)    -> C18/traverse-stop   {tree, pre, stop}
 //   func (*Node).PreOrder / PostOrder                 -> C19/traversal       {tree}
+//   func (*Node).PreOrder / PostOrder (one iterator value ranged several times; two iterators interleaved)
+//                                                     -> C19/reiterate       {tree, pre, stop}
 //
 // Tree encodings accepted for every "tree" input (nwTree):
 //   {"name":[ints], "dist": number|"NaN"|"+Inf"|"-Inf", "children":[tree...]}   nested form
@@ -1034,6 +1037,134 @@ func nwGenMultiTree(g *vrGen) {
 		}
 		sep := vrRandWord(g.Rand, []byte(" \t\n\r"), g.Rand.Intn(4))
 		g.Case(map[string]any{"trees": nwEncList(ts), "sep": vrB(sep), "trailing": g.Rand.Intn(2) == 0})
+	}
+}
+
+// nwMarshalListCheck is the oracle of C05/marshal-list; "" when it holds.
+func nwMarshalListCheck(ts []*Node) string {
+	// 1. every MarshalText call first; the results are kept as returned (not
+	// copied, not touched between the calls).
+	kept := make([][]byte, len(ts))
+	for i, t := range ts {
+		var merr error
+		if p := vrCatch(func() { kept[i], merr = t.MarshalText() }); p != nil {
+			return fmt.Sprintf("tree %d: MarshalText panicked: %v", i, p)
+		}
+		if merr != nil {
+			return fmt.Sprintf("tree %d: MarshalText returned error %v", i, merr)
+		}
+	}
+	// 2. only now the reference bytes: Write of each tree into a fresh buffer
+	// (all of them before the first comparison: Write may itself go through
+	// MarshalText).
+	refs := make([][]byte, len(ts))
+	for i, t := range ts {
+		w, msg := nwWriteAll([]*Node{t}, nil, false)
+		if msg != "" {
+			return fmt.Sprintf("tree %d: %s", i, msg)
+		}
+		refs[i] = w
+	}
+	for i := range ts {
+		if !bytes.Equal(kept[i], refs[i]) {
+			return fmt.Sprintf("tree %d of %d: the slice MarshalText returned holds %q after the later calls, but Write wrote %q", i, len(ts), nwHead(kept[i]), nwHead(refs[i]))
+		}
+	}
+	// 3. the kept slices joined read back as the list.
+	if msg := nwReadBackCheck(ts, bytes.Join(kept, nil)); msg != "" {
+		return "joined MarshalText results: " + msg
+	}
+	// 4. all trees written one after another into one shared buffer.
+	shared, msg := nwWriteAll(ts, nil, false)
+	if msg != "" {
+		return "shared buffer: " + msg
+	}
+	if want := bytes.Join(refs, nil); !bytes.Equal(shared, want) {
+		return fmt.Sprintf("sequential Write calls into one buffer emitted %q, the Write calls into fresh buffers %q", nwHead(shared), nwHead(want))
+	}
+	if msg := nwReadBackCheck(ts, shared); msg != "" {
+		return "shared buffer: " + msg
+	}
+	return ""
+}
+
+func nwRunMarshalList(in map[string]any) vrResult {
+	ts := nwTrees(in["trees"])
+	msg := nwMarshalListCheck(ts)
+	if msg == "" {
+		return vrResult{OK: true, Trivial: len(ts) < 2}
+	}
+	return nwFail(nwClassify(ts, nwMarshalListCheck), msg,
+		"MarshalText results stay equal to the Write bytes after later calls; joined / written into one buffer they read back as the same sequence of trees")
+}
+
+// nwMarkedStar: tree number k of a list, a root with n leaves; every name
+// starts with a letter that is different for every k.
+func nwMarkedStar(k, n int) *Node {
+	mark := string(rune('a' + k%26))
+	root := &Node{Name: fmt.Sprintf("%s%d", mark, n), Distance: float64(k)}
+	for i := 0; i < n; i++ {
+		root.Children = append(root.Children, &Node{Name: mark, Distance: float64(i % 3)})
+	}
+	return root
+}
+
+// nwTreeSize: nodes + name bytes (a proxy of the written length).
+func nwTreeSize(t *Node) int {
+	n := 0
+	for _, nd := range nwNodes(t) {
+		n += 1 + len(nd.Name)
+	}
+	return n
+}
+
+func nwGenMarshalList(g *vrGen) {
+	complete := true
+	emit := func(ts []*Node) bool {
+		if g.Expired() {
+			complete = false
+			return false
+		}
+		g.Case(map[string]any{"trees": nwEncList(ts)})
+		return true
+	}
+	ok := true
+	leaves := []int{0, 1, 2, 5, 17, 60}
+	var up, down []*Node
+	for i, a := range leaves {
+		for j, b := range leaves {
+			ok = ok && emit([]*Node{nwMarkedStar(i, a), nwMarkedStar(len(leaves)+j, b)})
+		}
+		up = append(up, nwMarkedStar(i, a))
+		down = append(down, nwMarkedStar(i, leaves[len(leaves)-1-i]))
+	}
+	ok = ok && emit(up) && emit(down)
+	pool := nwMultiPool()
+	for _, a := range pool {
+		for _, b := range pool {
+			ok = ok && emit([]*Node{a, b})
+		}
+	}
+	g.Exhaustive(complete && ok)
+	r := g.Rand
+	for !g.Expired() {
+		ts := make([]*Node, 2+r.Intn(5))
+		sizes := map[int]bool{}
+		for i := range ts {
+			for try := 0; ; try++ {
+				ts[i] = nwRandTree(r, 1+r.Intn(8), r.Float64(), true)
+				if r.Intn(2) == 0 { // marker byte in front of every name
+					for _, nd := range nwNodes(ts[i]) {
+						nd.Name = string(rune('a'+i)) + nd.Name
+					}
+				}
+				if sz := nwTreeSize(ts[i]); !sizes[sz] || try >= 20 {
+					sizes[sz] = true
+					break
+				}
+			}
+		}
+		emit(ts)
 	}
 }
 
@@ -2074,6 +2205,220 @@ func nwGenTraversal(g *vrGen) {
 	}
 }
 
+// C19/reiterate: the iterator VALUE returned by PreOrder/PostOrder is ranged
+// over several times, and two iterators over the same tree are consumed
+// interleaved. Every complete pass must be the whole reference order again.
+
+const (
+	nwSigReuse      = "newick:traversal-iterator-value-not-reusable"
+	nwSigInterleave = "newick:traversal-iterators-interfere"
+)
+
+// nwPass ranges over seq until the consumer has seen item #stop (0-based;
+// stop < 0: never stops) and returns the nodes seen. The number of callbacks is
+// guarded by limit.
+func nwPass(seq iter.Seq[*Node], stop, limit int) (got []*Node, after int) {
+	stopped := false
+	seq(func(n *Node) bool {
+		if stopped {
+			after++
+			return false
+		}
+		got = append(got, n)
+		if len(got)-1 == stop || len(got) >= limit {
+			stopped = true
+			return false
+		}
+		return true
+	})
+	return got, after
+}
+
+// nwOrderDiff compares a complete pass with the reference order.
+func nwOrderDiff(got, ref []*Node, index map[*Node]int) string {
+	for i := 0; i < len(got) && i < len(ref); i++ {
+		if got[i] != ref[i] {
+			gi, ok := index[got[i]]
+			return fmt.Sprintf("position %d yields node #%d (pre-order number; known=%v), reference has node #%d", i, gi, ok, index[ref[i]])
+		}
+	}
+	if len(got) != len(ref) {
+		return fmt.Sprintf("yields %d nodes instead of %d", len(got), len(ref))
+	}
+	return ""
+}
+
+func nwRunReiterate(in map[string]any) vrResult {
+	t := nwTree(in["tree"])
+	pre := vrBool(in["pre"])
+	stop := vrInt(in["stop"])
+	if stop < 0 {
+		panic("harness: negative stop")
+	}
+	var refPre, ref []*Node
+	nwRefPre(t, &refPre)
+	name := "PreOrder"
+	if pre {
+		ref = refPre
+	} else {
+		name = "PostOrder"
+		nwRefPost(t, &ref)
+	}
+	index := make(map[*Node]int, len(refPre))
+	for i, n := range refPre {
+		index[n] = i
+	}
+	mk := func() iter.Seq[*Node] {
+		if pre {
+			return t.PreOrder()
+		}
+		return t.PostOrder()
+	}
+	limit := len(ref) + 4
+	expected := fmt.Sprintf("every complete pass is the classic recursive %s sequence of the %d nodes, from the start", name, len(ref))
+	res := vrResult{OK: true, Trivial: len(ref) == 1}
+	where := ""
+	// full: a complete pass over seq; returns false (and sets res) if it is wrong.
+	full := func(seq iter.Seq[*Node], sig string) bool {
+		got, _ := nwPass(seq, -1, limit)
+		if d := nwOrderDiff(got, ref, index); d != "" {
+			res = nwFail(sig, where+": "+d, expected)
+			return false
+		}
+		return true
+	}
+	// partial: a pass that stops at item #stop; the items seen must be a prefix
+	// of the reference order, without callback after the stop.
+	partial := func(seq iter.Seq[*Node], sig string) bool {
+		got, after := nwPass(seq, stop, limit)
+		want := ref
+		if stop < len(ref) {
+			want = ref[:stop+1]
+		}
+		if after > 0 {
+			res = nwFail(sig, fmt.Sprintf("%s: %d callbacks after the consumer returned false", where, after), expected)
+			return false
+		}
+		if d := nwOrderDiff(got, want, index); d != "" {
+			res = nwFail(sig, where+" (first "+fmt.Sprint(len(want))+" nodes expected): "+d, expected)
+			return false
+		}
+		return true
+	}
+	pan := vrCatch(func() {
+		// (i) one value, two complete passes (then a stopped one and a third complete one).
+		seq := mk()
+		where = name + "(): first complete pass over a fresh iterator value"
+		if !full(seq, "generic") {
+			return
+		}
+		where = name + "(): second complete pass over the same iterator value"
+		if !full(seq, nwSigReuse) {
+			return
+		}
+		where = fmt.Sprintf("%s(): pass stopped at item #%d, after two complete passes over the same iterator value", name, stop)
+		if !partial(seq, nwSigReuse) {
+			return
+		}
+		where = fmt.Sprintf("%s(): complete pass after two complete passes and a pass stopped at item #%d, same iterator value", name, stop)
+		if !full(seq, nwSigReuse) {
+			return
+		}
+		// (ii) a fresh value: stopped pass first, then a complete one.
+		seq2 := mk()
+		where = fmt.Sprintf("%s(): pass stopped at item #%d over a fresh iterator value", name, stop)
+		if !partial(seq2, "generic") {
+			return
+		}
+		where = fmt.Sprintf("%s(): complete pass after a pass stopped at item #%d over the same iterator value", name, stop)
+		if !full(seq2, nwSigReuse) {
+			return
+		}
+		where = fmt.Sprintf("%s(): second pass stopped at item #%d over the same iterator value", name, stop)
+		if !partial(seq2, nwSigReuse) {
+			return
+		}
+		// (iii) two iterators from two calls, consumed interleaved: a is advanced
+		// by min(stop, n) items, then a and b alternate.
+		where = name + "() called twice, the two iterators pulled alternately"
+		nextA, stopA := iter.Pull(mk())
+		defer stopA()
+		nextB, stopB := iter.Pull(mk())
+		defer stopB()
+		var gotA, gotB []*Node
+		doneA, doneB := false, false
+		pull := func(next func() (*Node, bool), got *[]*Node, done *bool) {
+			if *done {
+				return
+			}
+			n, ok := next()
+			if !ok || len(*got) >= limit {
+				*done = true
+				return
+			}
+			*got = append(*got, n)
+		}
+		for i := 0; i < stop && !doneA; i++ {
+			pull(nextA, &gotA, &doneA)
+		}
+		for !doneA || !doneB {
+			pull(nextA, &gotA, &doneA)
+			pull(nextB, &gotB, &doneB)
+		}
+		if d := nwOrderDiff(gotA, ref, index); d != "" {
+			res = nwFail(nwSigInterleave, fmt.Sprintf("%s: first iterator (%d items ahead): %s", where, stop, d), expected)
+			return
+		}
+		if d := nwOrderDiff(gotB, ref, index); d != "" {
+			res = nwFail(nwSigInterleave, fmt.Sprintf("%s: second iterator (started when the first had yielded %d items): %s", where, stop, d), expected)
+			return
+		}
+		// and both values once more, sequentially, after all of the above
+		where = name + "(): complete pass over the first iterator value at the very end"
+		full(seq, nwSigReuse)
+	})
+	if pan != nil {
+		return nwFail("generic", fmt.Sprintf("%s: panic: %v", where, pan), expected+"; no panic")
+	}
+	return res
+}
+
+func nwGenReiterate(g *vrGen) {
+	complete := true
+	for _, sh := range nwAllShapes(5) {
+		n := len(sh) / 2
+		enc := nwEnc(nwFromShape(sh))
+		for _, pre := range []bool{true, false} {
+			for stop := 0; stop <= n; stop++ {
+				g.Case(map[string]any{"tree": enc, "pre": pre, "stop": stop})
+			}
+		}
+		if g.Expired() {
+			complete = false
+			break
+		}
+	}
+	for _, pre := range []bool{true, false} {
+		for _, stop := range []int{0, 1, 2, 15, 16, 17, 50, 98, 99, 100} {
+			g.Case(map[string]any{"tree": map[string]any{"chain": 100}, "pre": pre, "stop": stop})
+		}
+	}
+	g.Exhaustive(complete)
+	count := 3000
+	if g.Thorough() {
+		count = 60000
+	}
+	for i := 0; i < count && !g.Expired(); i++ {
+		n := 1 + g.Rand.Intn(60)
+		bias := g.Rand.Float64()
+		if i%4 == 0 {
+			bias = 0.95
+		}
+		t := nwRandTree(g.Rand, n, bias, false)
+		g.Case(map[string]any{"tree": nwFlat(t, false), "pre": g.Rand.Intn(2) == 0, "stop": g.Rand.Intn(n + 1)})
+	}
+}
+
 // ---------------------------------------------------------------------------
 // clause table
 // ---------------------------------------------------------------------------
@@ -2092,6 +2437,10 @@ func nwClauses() []vrClause {
 			Bound: "all sequences of <= 2 (quick) / <= 3 (thorough) trees from a pool of 12 x separators {none, LF, space, CRLF, TAB, mixed} x with/without separator after the last tree; then random sequences of <= 5 random trees with random whitespace separators",
 			Rule:  "trees written one after another with Write (separator between them) are read back by Reader as the same sequence",
 			Gen:   nwGenMultiTree, Run: nwRunMultiTree},
+		{Prop: "C05", Name: "marshal-list",
+			Bound: "all ordered pairs of trees from the pool of 12; all ordered pairs of marked star trees with 0,1,2,5,17,60 leaves (different written lengths), and these 6 in increasing and decreasing order; then random lists of 2..6 random trees (<= 8 nodes, random byte names and float64 bit patterns) of pairwise different sizes",
+			Rule:  "MarshalText is called on every tree of the list first and the returned slices are kept untouched; afterwards each kept slice == the bytes Write of that tree puts into a fresh buffer (a result is not clobbered by later MarshalText/Write calls); Reader over the kept slices joined yields exactly the trees in order; Write of all trees into one shared buffer emits the concatenation of those bytes and reads back as the same sequence",
+			Gen:   nwGenMarshalList, Run: nwRunMarshalList},
 		{Prop: "C06", Name: "chunking",
 			Bound: "every partition into reads, with and without EOF-with-data, of those of the 30 well-formed/malformed sample inputs that have <= 9 (quick) / <= 13 (thorough) bytes; fixed schedules {whole,1,2,3,7,1-2-3,4095,4096,4097,...} on all samples and on inputs > 2 bufio buffers; random near-valid inputs with random schedules",
 			Rule:  "item sequence (trees structurally, errors by presence and text) of Reader(chunked reader) == Reader(bytes.Reader)",
@@ -2128,5 +2477,9 @@ func nwClauses() []vrClause {
 			Bound: "all ordered trees <= 6 (quick) / <= 7 (thorough) nodes; chain of depth 10^5 (quick) / 10^6 (thorough); star with 10^5 children; random trees <= 400 (quick) / <= 5000 (thorough) nodes incl. deep-biased ones",
 			Rule:  "PreOrder / PostOrder node pointer sequences == own recursive pre-/post-order; names, distances, Children slice pointer/len/cap/nil-ness and all backing-array slots unchanged afterwards",
 			Gen:   nwGenTraversal, Run: nwRunTraversal},
+		{Prop: "C19", Name: "reiterate",
+			Bound: "all ordered trees <= 5 nodes x {PreOrder, PostOrder} x every stop index 0..n; chain of depth 100 at 10 stop indices; random trees <= 60 nodes (a quarter deep-biased) with random stop",
+			Rule:  "ONE iterator value seq := root.PreOrder() (or PostOrder) ranged repeatedly: complete, complete, stopped at item #stop, complete; a fresh value: stopped at item #stop, complete, stopped; every complete pass == the recursive reference order from the start, every stopped pass == its first stop+1 nodes without further callback; two iterators from two calls pulled alternately through iter.Pull (the first one min(stop,n) items ahead) each yield the reference order; no panic",
+			Gen:   nwGenReiterate, Run: nwRunReiterate},
 	}
 }
